@@ -154,6 +154,31 @@ Theorem C17_accepted_starts_with_d : forall fuel data m,
 Proof. exact accepted_first_byte. Qed.
 Print Assumptions C17_accepted_starts_with_d.
 
+(* hence every datagram that does not start with 'd' is dropped: one failure for the sender, nothing else *)
+Theorem C17_non_dictionary_is_dropped :
+  forall (Routing Store Other Addr : Type)
+         (process : node_state Routing Store Other Addr -> Addr -> rawmsg -> node_state Routing Store Other Addr)
+         fuel st sender data,
+  (forall rest, data <> c_d :: rest) ->
+  let st' := datagram_received Routing Store Other Addr process fuel st sender data in
+  routing _ _ _ _ st' = routing _ _ _ _ st /\ store _ _ _ _ st' = store _ _ _ _ st
+  /\ other _ _ _ _ st' = other _ _ _ _ st /\ failures _ _ _ _ st' = sender :: failures _ _ _ _ st.
+Proof. exact non_dictionary_dropped. Qed.
+Print Assumptions C17_non_dictionary_is_dropped.
+
+(* every ASCII text is a valid error text *)
+Theorem C17_ascii_is_utf8 : forall s, Forall (fun b => N_of_byte b <= 127) s -> utf8_valid s = true.
+Proof. exact ascii_utf8. Qed.
+Print Assumptions C17_ascii_is_utf8.
+
+(* the defect repaired by 774587f, on the model of the OLD validation: a list of 20 integers passed as rpc_id *)
+Theorem C17_old_id_check_refuted :
+  let rpc := BList (repeat (BInt 0) 20) in
+  let node := BStr (repeat (byte_of_N 110) 48) in
+  check_ids_old rpc node = None /\ check_ids rpc node = Err EValue.
+Proof. exact old_id_check_refuted. Qed.
+Print Assumptions C17_old_id_check_refuted.
+
 (* ---- non-vacuity and the regression corpus, evaluated on the model ---- *)
 Definition rpc20 : bytes := repeat (byte_of_N 114) 20.
 Definition node48 : bytes := repeat (byte_of_N 110) 48.
@@ -190,3 +215,9 @@ Example C17_ex_lax_int1 : py_int_of_bytes (lit " +1_0 ") = Some 10%Z. Proof. vm_
 Example C17_ex_lax_int2 : py_int_of_bytes (lit "1__0") = None. Proof. vm_compute. reflexivity. Qed.
 Example C17_ex_lax_int3 : py_int_of_bytes (lit "- 1") = None. Proof. vm_compute. reflexivity. Qed.
 Example C17_ex_lax_int4 : py_int_of_bytes (lit "") = None. Proof. vm_compute. reflexivity. Qed.
+(* every truncation of this ping by two or more bytes is dropped (an instance, not a general claim) *)
+Example C17_ex_truncations_of_ping :
+  let p := encode_message (Request rpc20 node48 Ping) in
+  forallb (fun k => match decode_datagram 10 (firstn k p) with inr _ => true | inl _ => false end)
+          (seq 0 (length p - 1)) = true.
+Proof. vm_compute. reflexivity. Qed.
